@@ -591,7 +591,26 @@ fn run_smooth(cx: &mut Ctx) {
     }
 }
 
+/// the oracles of this module on inputs with known answers: a panic or a wrong value here means the CHECK is broken
+/// (such a defect once disabled the generic-bisection bound silently, DESIGN A.6), and is reported as a violation
+fn self_test(cx: &mut Ctx) {
+    let cases: Vec<(&str, Box<dyn Fn(f64) -> f64>, f64, f64)> = vec![
+        ("logistic p=0.5", Box::new(|x: f64| 1.0 / (1.0 + (-x).exp())), 0.5, 0.0),
+        ("step at -243772.25 p=0.25", Box::new(|x: f64| if x < -243772.25 { 0.0 } else if x < 1.0 { 0.25 } else { 1.0 }), 0.25, -243772.25),
+        ("step at 1000 p=0.9", Box::new(|x: f64| if x < 0.0 { 0.0 } else if x < 1000.0 { 0.8 } else { 1.0 }), 0.9, 1000.0),
+    ];
+    for (name, f, p, want) in cases {
+        let got = catch(|| true_quantile(&*f, p));
+        let ok = matches!(got, Out::Ok(Some(q)) if (q - want).abs() <= 1e-12 * want.abs().max(1.0));
+        cx.evals += 1;
+        if !ok {
+            cx.violation("HARNESS self-test true_quantile", name, json!({"chk": "selftest", "name": name}), format!("{:?}", got.ok()), "the oracle returns the known quantile");
+        }
+    }
+}
+
 pub fn run(cx: &mut Ctx) {
+    self_test(cx);
     let mut fs = Findings::new();
     run_families(cx, &mut fs);
     fs.flush(cx);
